@@ -48,6 +48,12 @@ CLAIMED = {
  "C06": ("dominating-guard extraction and must-pass-through on go/cfg; sibling agreement reset ~ FLUSHDB; command-table read gate",
          "the resync protocol: caught-up is declared only under own position >= leader's aof_size and cleared before every reconnect; the position handed to the leader describes the local state (position 0 only after the log was re-created and the dataset reset; a truncated position only after truncate → reset → reload → size check); reset clears everything FLUSHDB clears; replicated commands are applied and logged under one exclusive critical section that also covers the generation test; object reads are gated until the follower has caught up once",
          "convergence under arbitrary fault sequences and the checksum search itself"),
+ "C05": ("co-update and guard-agreement rules over the hook registries (AST with enclosing guards); table agreement of detect names; lock-state analysis for fence evaluation",
+         "the candidate-selection machinery: the seven hook registries are inserted, deleted and cleared together, with the same guards on the respective hook for the two spatial indexes; getQueueCandidates consults all three candidate indexes; the detect names fenceMatch produces are those DETECT accepts (plus roam); fence evaluation and queueing run under the exclusive lock; no geometric predicate compares an object with itself",
+         "the enter/exit/inside/outside/cross classification itself and the equality of results over the three transports (value-level)"),
+ "C10": ("per-lock interprocedural lock-state dataflow (six auxiliary locks); must-pass-through on go/cfg; table agreement for endpoint protocols",
+         "queue discipline: every access to a subscriber queue, the live-fence stack and buffers, the pub/sub hub table, the follower publish queue and the hook state holds the lock guarding it; the queue index advances under the exclusive server lock; all writes to a subscriber connection go through one closure holding the write lock; a failed webhook send re-inserts the unsent tail (keys, values and ttls from the same index) before giving up; the endpoint manager's mutex is released on every reachable exit",
+         "delivery under endpoint failure patterns and exactly-once at the receiver"),
 }
 
 NOT_APPLICABLE = {
